@@ -110,7 +110,7 @@ def run_shard(shard, ctx):
             run_case({"kind": "vmdk-long", "n": n, "pad": pad}, ctx)
     elif kind == "vmdk-huge-read":
         # single requests of 33 MiB .. 77 MiB inside and across extents of 40 MiB / 1 MiB + 3 sectors / 36 MiB
-        for first in ("FLAT", "SPARSE"):
+        for first in ("FLAT", "SPARSE", "SPARSE-dense", "SESPARSE-dense"):
             run_case({"kind": "vmdk-huge", "first": first}, ctx)
     elif kind == "handles":
         hk = ["sparse", "raw", "cowd", "sesparse"]
@@ -336,17 +336,23 @@ def _case_vmdk_huge(case, ctx, d, buf):
     sizes = [40 * MBs, MBs + 3, 36 * MBs]
     lines, parts = [], []
     for xi, sectors in enumerate(sizes):
-        if xi == 0 and case["first"] == "SPARSE":
+        if xi == 0 and case["first"] != "FLAT":
             grain = 128
             n = (sectors + grain - 1) // grain
-            states = [DATA if i % 37 in (0, 5) else HOLE for i in range(n)]
+            dense = case["first"].endswith("-dense")
+            # dense: every grain allocated, stored in guest order (one physically contiguous run of 40 MiB)
+            states = [DATA if dense or i % 37 in (0, 5) else HOLE for i in range(n)]
             idx = [i for i, st in enumerate(states) if st == DATA]
             slots = [None] * n
-            for p, i in enumerate(idx[::-1]):
+            for p, i in enumerate(idx if dense else idx[::-1]):
                 slots[i] = p
-            img = B.build_hosted(states, slots, grain, 512, sectors, layer=xi + 1)
+            if case["first"].startswith("SESPARSE"):
+                img = B.build_sesparse(states, slots, grain, 64, sectors, layer=xi + 1)
+                fn, kind = "huge-s001.vmdk", "SESPARSE"
+            else:
+                img = B.build_hosted(states, slots, grain, 512, sectors, layer=xi + 1)
+                fn, kind = "huge-s001.vmdk", "SPARSE"
             m = B.model(states, grain, sectors, layer=xi + 1)
-            fn, kind = "huge-s001.vmdk", "SPARSE"
         else:
             # sparsely stamped flat file: 4 KiB of pattern at the start of every MiB, zeros elsewhere
             from mc.vfile import Image as _Image
